@@ -167,6 +167,7 @@ pub struct FaultStore<I: Storage> {
     pub inner: Arc<I>,
     plan: Mutex<VecDeque<Fault>>,
     log: Mutex<Vec<LogEntry>>,
+    parked: std::sync::atomic::AtomicBool,
 }
 
 impl<I: Storage> FaultStore<I> {
@@ -175,6 +176,7 @@ impl<I: Storage> FaultStore<I> {
             inner,
             plan: Mutex::new(VecDeque::new()),
             log: Mutex::new(Vec::new()),
+            parked: std::sync::atomic::AtomicBool::new(false),
         }
     }
 
@@ -183,6 +185,18 @@ impl<I: Storage> FaultStore<I> {
         let mut p = self.plan.lock().unwrap();
         p.clear();
         p.extend(faults);
+    }
+
+    /// True once a call answered with `ParkAfter` has done its writes and stopped. With a
+    /// backend that writes on its own thread this is the only reliable sign that the
+    /// "crash inside a request" point has been reached.
+    pub fn has_parked(&self) -> bool {
+        self.parked.load(std::sync::atomic::Ordering::SeqCst)
+    }
+
+    async fn park<T>(&self) -> T {
+        self.parked.store(true, std::sync::atomic::Ordering::SeqCst);
+        std::future::pending().await
     }
 
     pub fn log(&self) -> Vec<LogEntry> {
@@ -253,7 +267,7 @@ where
         self.record(LogEntry { call: "remove_tombstones", keyspace: keyspace.into(), docs, written: written.len(), fault });
         match fault {
             Fault::None => Ok(()),
-            Fault::ParkAfter(_) => std::future::pending().await,
+            Fault::ParkAfter(_) => self.park().await,
             _ => Err(BulkMutationError::new(injected(), written.iter().map(|i| keys[*i]).collect())),
         }
     }
@@ -268,7 +282,7 @@ where
         self.record(LogEntry { call: "put", keyspace: keyspace.into(), docs, written: write as usize, fault });
         match fault {
             Fault::None => Ok(()),
-            Fault::ParkAfter(_) => std::future::pending().await,
+            Fault::ParkAfter(_) => self.park().await,
             _ if write => Ok(()), // a single-document call cannot "partially" fail
             _ => Err(injected()),
         }
@@ -296,7 +310,7 @@ where
         self.record(LogEntry { call: "multi_put", keyspace: keyspace.into(), docs, written: written.len(), fault });
         match fault {
             Fault::None => Ok(()),
-            Fault::ParkAfter(_) => std::future::pending().await,
+            Fault::ParkAfter(_) => self.park().await,
             _ => Err(BulkMutationError::new(injected(), written.iter().map(|i| all[*i].id()).collect())),
         }
     }
@@ -314,7 +328,7 @@ where
         self.record(LogEntry { call: "mark_as_tombstone", keyspace: keyspace.into(), docs, written: write as usize, fault });
         match fault {
             Fault::None => Ok(()),
-            Fault::ParkAfter(_) => std::future::pending().await,
+            Fault::ParkAfter(_) => self.park().await,
             _ if write => Ok(()),
             _ => Err(injected()),
         }
@@ -339,7 +353,7 @@ where
         self.record(LogEntry { call: "mark_many_as_tombstone", keyspace: keyspace.into(), docs, written: written.len(), fault });
         match fault {
             Fault::None => Ok(()),
-            Fault::ParkAfter(_) => std::future::pending().await,
+            Fault::ParkAfter(_) => self.park().await,
             _ => Err(BulkMutationError::new(injected(), written.iter().map(|i| all[*i].id).collect())),
         }
     }
